@@ -14,6 +14,8 @@ no longer finds a name must first ask whether the thing is still there under ano
 
 Nothing here can make a check pass on changed behaviour: fields are matched by type and position only when the whole
 struct agrees, functions only by proven equivalence."""
+import re
+
 import equiv
 
 
@@ -32,6 +34,13 @@ def meta_of(facts):
         fns[p] = {'pub': facts.fns.get(p, {}).get('pub'), 'sig': b['locals'][:b['argc'] + 1],
                   'params': [names.get(str(i)) for i in range(1, b['argc'] + 1)]}
     return {'adts': adts, 'fns': fns}
+
+
+_LT = re.compile(r"'[a-z_][a-z0-9_]*\b ?")
+
+
+def _strip_lifetimes(p):
+    return _LT.sub('', p).replace('<, ', '<').replace('<>', '')
 
 
 def _rewrite(x, mapping):
@@ -53,21 +62,75 @@ def align(facts, cfg, note=None):
     if not meta:
         return
     say = note or (lambda s: None)
+    # 0. impl headers whose lifetime parameters are spelled differently (`impl<'a, T> Node for &'a mut T` vs
+    #    `impl<T> Node for &mut T`): the same impl, the same functions
+    ref_fns0 = meta['fns']
+    gone = {}
+    for p in ref_fns0:
+        if p not in facts.bodies and p.startswith('<'):
+            gone.setdefault(_strip_lifetimes(p), p)
+    mapping0 = []
+    for p in list(facts.bodies):
+        if p not in ref_fns0 and p.startswith('<') and _strip_lifetimes(p) in gone:
+            r = gone[_strip_lifetimes(p)]
+            if ref_fns0[r]['sig'] == facts.bodies[p]['locals'][:facts.bodies[p]['argc'] + 1]:
+                mapping0.append((p, r))
+    if mapping0:
+        selfs = {}
+        for c, r in mapping0:
+            if ' as ' in c and ' as ' in r:
+                selfs[c[1:c.index(' as ')]] = r[1:r.index(' as ')]
+        for name in list(facts.crates):
+            facts.crates[name] = _rewrite(facts.crates[name], mapping0)
+            for i in facts.crates[name].get('impls', []):
+                if i.get('self_ty') in selfs and any(it.get('path') in {r for _, r in mapping0} for it in i.get('items', [])):
+                    cs, rs = i['self_ty'], selfs[i['self_ty']]
+                    i['self_ty'] = rs
+                    types = facts.crates[name].get('types') or {}
+                    if cs in types and rs not in types:
+                        types[rs] = types[cs]
+                    if isinstance(i.get('path'), str) and i['path'].startswith('<%s as ' % cs):
+                        i['path'] = '<%s as ' % rs + i['path'][len('<%s as ' % cs):]
+                    for it in i.get('items', []):
+                        if isinstance(it.get('path'), str) and it['path'].startswith('<%s as ' % cs):
+                            it['path'] = '<%s as ' % rs + it['path'][len('<%s as ' % cs):]
+        facts.index()
+        say('%d function(s) of impls whose lifetime parameters are spelled differently in this tree (e.g. %s, here %s) are addressed by their reference names' % (
+            len(mapping0), mapping0[0][1], mapping0[0][0]))
     # 1. field names
     for p, ref_vs in meta['adts'].items():
         a = facts.adts.get(p)
         if a is None:
             continue
-        cur_vs = _variants(a)
+        cur_vs = [[list(f) for f in v] for v in _variants(a)]
+        ref_vs = [[list(f) for f in v] for v in ref_vs]
         if cur_vs == ref_vs or len(cur_vs) != len(ref_vs):
             continue
         if all(len(c) == len(r) and [t for _, t in c] == [t for _, t in r] for c, r in zip(cur_vs, ref_vs)):
             renamed = [(c[i][0], r[i][0]) for c, r in zip(cur_vs, ref_vs) for i in range(len(c)) if c[i][0] != r[i][0]]
+            if not renamed:
+                continue
             for v, r in zip(a['variants'], ref_vs):
                 for f, (rn, _) in zip(v['fields'], r):
                     f['name'] = rn
             say('struct %s: fields %s carry other names in this tree (same types, same positions); the rules use the reference names' % (
                 p, ', '.join('%s (here %s)' % (o, c) for c, o in renamed)))
+    # 1b. fields declared in another order (named-field structs: the order of declaration carries no meaning)
+    perms = {}
+    for p, ref_vs in meta['adts'].items():
+        a = facts.adts.get(p)
+        if a is None or a.get('kind') == 'Enum' or len(ref_vs) != 1 or len(a['variants']) != 1:
+            continue
+        cur, ref = _variants(a)[0], [tuple(x) for x in ref_vs[0]]
+        names = [n for n, _ in cur]
+        if cur != ref and sorted(cur) == sorted(ref) and len(set(names)) == len(names) and not any(n.isdigit() for n in names):
+            perm = [ref.index(f) for f in cur]          # position in this tree -> position on the reference tree
+            perms[p] = perm
+            fields = a['variants'][0]['fields']
+            a['variants'][0]['fields'] = [fields[perm.index(i)] for i in range(len(fields))]
+            say('struct %s: fields declared in the order (%s) in this tree; the rules and the comparison with the reference use the reference order' % (p, ', '.join(names)))
+    if perms:
+        _permute_fields(facts, perms)
     # 2. private functions
     ref_fns = meta['fns']
     missing = [p for p, m in ref_fns.items() if m.get('pub') is False and p not in facts.bodies and p in equiv.reference(cfg)]
@@ -96,6 +159,81 @@ def align(facts, cfg, note=None):
         for name in list(facts.crates):
             facts.crates[name] = _rewrite(facts.crates[name], mapping)
         facts.index()
+
+
+def _permute_fields(facts, perms):
+    """rewrite every field projection on, and every aggregate of, the structs in `perms` to the reference field order.
+    Places are typed by walking their projections from the local's declared type."""
+    def place(body, pl):
+        cur = facts.ty(body['locals'][pl[0]])
+        for pr in pl[1]:
+            if pr == '*':
+                if cur.get('k') == 'adt' and cur.get('path') == 'alloc::boxed::Box' and cur.get('args'):
+                    cur = facts.ty(cur['args'][0])
+                else:
+                    cur = facts.ty(cur.get('inner')) if cur.get('inner') is not None else {}
+            elif isinstance(pr, list) and pr[0] == 'f':
+                if cur.get('k') == 'adt' and cur.get('path') in perms and pr[1] < len(perms[cur['path']]):
+                    pr[1] = perms[cur['path']][pr[1]]
+                cur = facts.ty(pr[2])
+            elif isinstance(pr, list) and pr[0] in ('i', 'ci'):
+                cur = facts.ty(cur.get('inner')) if cur.get('inner') is not None else {}
+            # sub-slice, downcast, opaque: the type stays what matters here
+
+    def operand(body, op):
+        if isinstance(op, list) and op and op[0] in ('cp', 'mv'):
+            place(body, op[1])
+
+    def rvalue(body, rv):
+        k = rv[0]
+        if k in ('use', 'repeat'):
+            operand(body, rv[1])
+        elif k == 'un':
+            operand(body, rv[2])
+        elif k in ('ref', 'rawptr'):
+            place(body, rv[2])
+        elif k == 'cast':
+            operand(body, rv[2])
+        elif k == 'bin':
+            operand(body, rv[2])
+            operand(body, rv[3])
+        elif k in ('discr', 'len'):
+            place(body, rv[1])
+        elif k == 'agg':
+            for o in rv[2]:
+                operand(body, o)
+            kind = rv[1]
+            if kind[0] == 'adt' and kind[1] in perms and len(rv[2]) == len(perms[kind[1]]):
+                pm = perms[kind[1]]
+                rv[2] = [rv[2][pm.index(i)] for i in range(len(pm))]
+    for d in facts.crates.values():
+        for b in list(d['bodies']) + list(d.get('const_bodies', [])):
+            for blk in b.get('blocks', []):
+                for st in blk['s']:
+                    if st[0] == '=':
+                        place(b, st[1])
+                        rvalue(b, st[2])
+                    elif st[0] == 'setdiscr':
+                        place(b, st[1])
+                    else:
+                        for x in st[1:]:
+                            operand(b, x)
+                t = blk['t']
+                k = t['k']
+                if k == 'switch':
+                    operand(b, t['d'])
+                elif k == 'call':
+                    if t.get('f'):
+                        operand(b, t['f'])
+                    for a in t['args']:
+                        operand(b, a)
+                    place(b, t['dest'])
+                elif k == 'assert':
+                    operand(b, t['c'])
+                    for o in t.get('mo') or []:
+                        operand(b, o)
+                elif k == 'drop':
+                    place(b, t['p'])
 
 
 def param_index(facts, cfg, body, name):
